@@ -264,7 +264,7 @@ Defns ==
        d \in Dialects, S \in IF Thorough THEN {{1}, {1, 6}, {3}, {2, 3, 6}} ELSE {{1, 6}, {3}}, b \in 0..7, rr \in BOOLEAN, rs \in BOOLEAN}
   (* headers *)
   \cup {Mk(d, S, FALSE, FALSE, 2, 0, h, rr, FALSE, rh, "headers") :
-       d \in Dialects, S \in IF Thorough THEN {{1}, {3}, {6}, {1, 3, 6}, {4, 5}} ELSE {{1}, {3}, {6}},
+       d \in Dialects, S \in IF Thorough THEN {{1}, {3}, {6}, {1, 3, 6}, {4, 5}} ELSE {{1}, {3}, {1, 3, 6}},
        h \in 2..5, rr \in IF Thorough THEN BOOLEAN ELSE {FALSE}, rh \in BOOLEAN}
 
 Statuses == {200, 201, 204, 404, 500}
@@ -281,7 +281,7 @@ CtText(defn, o) ==
        [] o = "params" -> [present |-> TRUE, txt |-> m1 \o TCharset]
        [] o = "upper" -> [present |-> TRUE, txt |-> [i \in DOMAIN m2 |-> Upper(m2[i])] \o TCharset]
 StatusesOf(sl) == IF Thorough \/ sl \in {"keys", "headers"} THEN Statuses ELSE IF sl = "media" THEN {200, 404} ELSE {200, 500}
-CtOptionsOf(sl) == IF Thorough \/ sl = "media" THEN CtOptions ELSE IF sl = "keys" THEN {"doc1", "doc2", "undoc"} ELSE {"doc1", "doc2"}
+CtOptionsOf(sl) == IF Thorough \/ sl = "media" THEN CtOptions ELSE {"doc1", "doc2"}
 Resps(d) ==
   IF d.slice = "headers"
   THEN {[status |-> s, ct |-> CtText(d, o), hdrs |-> hs, body |-> b] :
